@@ -302,18 +302,33 @@ theorem ff_rhs_terms_independent :
 /-! ## the Hessian assembly -/
 section hessian
 
-theorem scatter_cons {R : Type} [Zero R] (x : ℕ) (L : List ℕ) (v : ℕ → R) (j : ℕ) :
-    scatter (x :: L) v j = if j = x then v 0 else scatter L (fun q => v (q+1)) j := by
-  by_cases h : j = x
-  · subst h; simp [scatter]
-  · have h' : ¬ x = j := fun e => h e.symm
-    simp [scatter, List.idxOf_cons, h, h']
+theorem scatter_cons {R : Type} [Zero R] [Add R] (x : ℕ) (L : List ℕ) (v : ℕ → R) (j : ℕ) :
+    scatter (x :: L) v j = (if j = x then v 0 else 0) + scatter L (fun q => v (q+1)) j := rfl
 
-theorem scatter_not_mem {R : Type} [Zero R] (L : List ℕ) (v : ℕ → R) (j : ℕ) (h : j ∉ L) : scatter L v j = 0 := by
-  simp [scatter, List.idxOf_eq_length h]
+theorem scatter_not_mem {R : Type} [AddMonoid R] (L : List ℕ) (v : ℕ → R) (j : ℕ) (h : j ∉ L) : scatter L v j = 0 := by
+  induction L generalizing v with
+  | nil => rfl
+  | cons x L ih =>
+    have hx : ¬ j = x := fun e => h (e ▸ List.mem_cons_self)
+    rw [scatter_cons, if_neg hx, zero_add]
+    exact ih _ (fun hm => h (List.mem_cons_of_mem _ hm))
 
-/-- summing against a scattered vector is summing over its positions -/
-theorem scatter_sum {R : Type} [CommSemiring R] (nS : ℕ) (L : List ℕ) (hn : L.Nodup) (hlt : ∀ x ∈ L, x < nS)
+/-- entry `j` of the accumulated vector is the sum of the positions whose index is `j` (`np.add.at`) -/
+theorem scatter_entry {R : Type} [AddCommMonoid R] (L : List ℕ) (v : ℕ → R) (j : ℕ) :
+    scatter L v j = sumTo L.length (fun q => if L.getD q 0 = j then v q else 0) := by
+  induction L generalizing v with
+  | nil => rfl
+  | cons x L ih =>
+    rw [scatter_cons, ih, List.length_cons, sumTo_succ']
+    congr 1
+    by_cases hj : j = x
+    · subst hj; simp
+    · have : ¬ x = j := fun e => hj e.symm
+      simp [hj, this]
+
+/-- summing against an accumulated vector is summing over the POSITIONS of the index list - repeated indices included
+(no `Nodup` hypothesis: that is what `np.add.at` buys) -/
+theorem scatter_sum {R : Type} [CommSemiring R] (nS : ℕ) (L : List ℕ) (hlt : ∀ x ∈ L, x < nS)
     (v h : ℕ → R) :
     sumTo nS (fun j => scatter L v j * h j) = sumTo L.length (fun q => v q * h (L.getD q 0)) := by
   induction L generalizing v with
@@ -322,17 +337,37 @@ theorem scatter_sum {R : Type} [CommSemiring R] (nS : ℕ) (L : List ℕ) (hn : 
     refine (sumTo_congr nS _ (fun _ => (0:R)) (fun j _ => ?_)).trans (sumTo_zero nS)
     simp [scatter]
   | cons x L ih =>
-    have hx : x ∉ L := (List.nodup_cons.mp hn).1
-    have hL : L.Nodup := (List.nodup_cons.mp hn).2
     have e : sumTo nS (fun j => scatter (x :: L) v j * h j)
         = sumTo nS (fun j => (if j = x then v 0 * h j else 0) + scatter L (fun q => v (q+1)) j * h j) := by
       apply sumTo_congr; intro j _
-      rw [scatter_cons]
+      rw [scatter_cons, add_mul]
       by_cases hj : j = x
-      · subst hj; simp [scatter_not_mem L _ j hx]
       · simp [hj]
-    rw [e, sumTo_add_fun, sumTo_indicator, ih hL (fun y hy => hlt y (List.mem_cons_of_mem _ hy)), List.length_cons, sumTo_succ']
+      · simp [hj]
+    rw [e, sumTo_add_fun, sumTo_indicator, ih (fun y hy => hlt y (List.mem_cons_of_mem _ hy)), List.length_cons, sumTo_succ']
     simp [hlt x (List.mem_cons_self)]
+
+/-- without repetition the buffered `out[idx] += v` (as found) and `np.add.at` agree -/
+theorem scatterAsFound_eq_of_nodup {R : Type} [AddMonoid R] (L : List ℕ) (hn : L.Nodup) (v : ℕ → R) (j : ℕ) :
+    scatterAsFound L v j = scatter L v j := by
+  induction L generalizing v with
+  | nil => rfl
+  | cons x L ih =>
+    have hx : x ∉ L := (List.nodup_cons.mp hn).1
+    have hL : L.Nodup := (List.nodup_cons.mp hn).2
+    rw [scatter_cons]
+    simp only [scatterAsFound]
+    by_cases hj : j = x
+    · subst hj; simp [hx, scatter_not_mem L _ j hx]
+    · simp [hj, ih hL]
+
+/-- history (before fix 9e5845f): with a state observed twice, `stateIndex = [1,1]`, the buffered `E[stateIndex] += v`
+keeps only the last value (`v 1 = 5`), `np.add.at` - and the cost, the gradient and `jtj`, which sum over the observed
+COLUMNS - both (`v 0 + v 1 = 8`) -/
+theorem scatter_asFound_counterexample :
+    scatterAsFound [1, 1] (fun q => if q = 0 then (3:Int) else 5) 1 = 5 ∧
+    scatter [1, 1] (fun q => if q = 0 then (3:Int) else 5) 1 = 8 := by
+  decide
 
 /-- `kron(E, eye(nP)).dot(F)`, entry `(a, b)` -/
 theorem kronE_entry {R : Type} [CommSemiring R] (nS nP : ℕ) (e : Vec R) (F : Mat R) (a b : ℕ) (ha : a < nP) :
@@ -352,14 +387,13 @@ theorem kronE_entry {R : Type} [CommSemiring R] (nS nP : ℕ) (e : Vec R) (F : M
 
 /-- what the accumulation loop of `hessian` computes:
 `H[a][b] = Σ_i Σ_q diff_loss[i][q]·weight[i][q]·FF_i[stateIndex[q]*nP + a][b]` -/
-theorem hessianH_entry {R : Type} [CommRing R] (nS nP n : ℕ) (stateIdx : List ℕ) (hn : stateIdx.Nodup)
+theorem hessianH_entry {R : Type} [CommRing R] (nS nP n : ℕ) (stateIdx : List ℕ)
     (hlt : ∀ x ∈ stateIdx, x < nS) (dl w : Mat R) (FF : ℕ → Mat R) (a b : ℕ) (ha : a < nP) :
     hessianH nS nP n stateIdx dl w FF a b
       = sumTo n (fun i => sumTo stateIdx.length (fun q => dl i q * w i q * FF i (stateIdx.getD q 0 * nP + a) b)) := by
   unfold hessianH
   apply sumTo_congr; intro i _
-  rw [kronE_entry nS nP _ _ a b ha, hessE, scatter_sum nS stateIdx hn hlt]
-  apply sumTo_congr; intro q _; ring
+  rw [kronE_entry nS nP _ _ a b ha, hessE, scatter_sum nS stateIdx hlt]
 
 /-- the derivative in `θ_b` of the gradient component `a` of the weighted square loss, as `sens_to_grad` computes it:
 `yh i q` is the prediction for observation `i`, observed state number `q`, as a function of `θ_b`; `sa i q` its
@@ -395,7 +429,7 @@ PARTIAL because of the two hypotheses that are the variational-equation theorem 
   (`ff_rhs_is_true`: the system integrated for it IS the second-order variational equation);
 `hJTJ` says `JTJ` is the `sens_to_jtj` value at these sensitivities (`jtj_entry`), `dl = -2·(y - ŷ)·w` is `diff_loss`. -/
 theorem hessian_is_second_derivative_partial (nS nP n : ℕ) (stateIdx paramIdx : List ℕ)
-    (hn : stateIdx.Nodup) (hlt : ∀ x ∈ stateIdx, x < nS) (a b : ℕ) (ha : paramIdx.getD a 0 < nP)
+    (hlt : ∀ x ∈ stateIdx, x < nS) (a b : ℕ) (ha : paramIdx.getD a 0 < nP)
     (Y w sb JTJ : Mat ℝ) (FF : ℕ → Mat ℝ) (yh sa : ℕ → ℕ → ℝ → ℝ) (v0 : ℝ)
     (hy : ∀ i q, HasDerivAt (yh i q) (sb i q) v0)
     (hs : ∀ i q, HasDerivAt (sa i q) (FF i (stateIdx.getD q 0 * nP + paramIdx.getD a 0) (paramIdx.getD b 0)) v0)
@@ -404,7 +438,7 @@ theorem hessian_is_second_derivative_partial (nS nP n : ℕ) (stateIdx paramIdx 
       (hessian nS nP n stateIdx paramIdx (fun i q => -2 * ((Y i q - yh i q v0) * w i q)) w FF JTJ a b) v0 := by
   refine (gradient_hasDerivAt n stateIdx.length Y w sb _ yh sa v0 hy hs).congr_deriv ?_
   unfold hessian
-  rw [hJTJ, hessianH_entry nS nP n stateIdx hn hlt _ w FF _ _ ha]
+  rw [hJTJ, hessianH_entry nS nP n stateIdx hlt _ w FF _ _ ha]
   congr 1
   ring
 
@@ -416,6 +450,15 @@ derivative of the gradient is `diff_loss·w·X + 2·JTJ = 1`, which is what the 
 theorem hessian_asFound_sign_counterexample :
     hessianAsFound 1 1 1 [0] [0] (fun _ _ => (1:Int)) (fun _ _ _ => 1) (fun _ _ => 0) 0 0 = -1 ∧
     hessian 1 1 1 [0] [0] (fun _ _ => (1:Int)) (fun _ _ => 1) (fun _ _ _ => 1) (fun _ _ => 0) 0 0 = 1 := by
+  decide
+
+/-- history (before fix 9e5845f): one observation time, two states, one parameter, state 1 observed twice
+(`stateIdx = [1,1]`) with `diff_loss·weight = 3` and `5`, second-order sensitivity of state 1 equal to 1, `JTJ = 0`:
+the derivative of the gradient is `(3 + 5)·1 = 8` (`hessianH_entry`, sum over the two POSITIONS), which is what the
+code returns now; with the buffered `E[stateIndex] += …` it returned `5`. -/
+theorem hessian_overwrite_asFound_counterexample :
+    hessianOverwrite 2 1 1 [1, 1] [0] (fun _ q => if q = 0 then (3:Int) else 5) (fun _ _ => 1) (fun _ _ _ => 1) (fun _ _ => 0) 0 0 = 5 ∧
+    hessian 2 1 1 [1, 1] [0] (fun _ q => if q = 0 then (3:Int) else 5) (fun _ _ => 1) (fun _ _ _ => 1) (fun _ _ => 0) 0 0 = 8 := by
   decide
 
 /-! ## non-vacuity -/
@@ -432,7 +475,7 @@ example : HasDerivAt (fun v : ℝ => sumTo 1 (fun i => sumTo 1 (fun q => (-2 * (
   have hs : ∀ i q : ℕ, HasDerivAt (fun v : ℝ => 2*v) ((fun (_ : ℕ) (_ _ : ℕ) => (2:ℝ)) i (([0] : List ℕ).getD q 0 * 1 + ([0] : List ℕ).getD 0 0) (([0] : List ℕ).getD 0 0)) 1 := by
     intro i q
     simpa using (hasDerivAt_id (1:ℝ)).const_mul (2:ℝ)
-  have h := hessian_is_second_derivative_partial 1 1 1 [0] [0] (by simp) (by simp) 0 0 (by simp)
+  have h := hessian_is_second_derivative_partial 1 1 1 [0] [0] (by simp) 0 0 (by simp)
     (fun _ _ => (3:ℝ)) (fun _ _ => 2) (fun _ _ => 2) (fun _ _ => (2*1*2) * (2*2)) (fun _ _ _ => 2)
     (fun _ _ v => v*v) (fun _ _ v => 2*v) 1 hy hs (by simp [sumTo])
   simpa using h
